@@ -1,4 +1,6 @@
+import HL.Model.Ast
 import HL.Model.Text
 import HL.Spec.RefBuffer
 import HL.Lemmas.Text
 import HL.Props.C01
+import HL.Driver.AstJson
